@@ -202,7 +202,40 @@ def gen_cases(tier, seed):
     cases += menu_cases(tier, rng)
     cases += macro_cases(tier, rng)
     cases += api_cases(random.Random(seed * 131 + 17), 40 if tier == "quick" else 600)
+    cases += surround_cases(random.Random(seed * 137 + 19), 30 if tier == "quick" else 400)
     return cases
+
+
+def surround_cases(rng, n):
+    """N: Vi commands that read the characters of a pair: change / delete surround (c s X Y, d s X), inside / around a pair with every
+    operator (d i X, c a X, y i X, g~ i X ...), add surround in visual mode (v motion S X) - on buffers where the pair is balanced,
+    nested, unbalanced (only the opening or only the closing character, before or after the cursor) or absent"""
+    BUFS = ['say "hello', 'say "hello" x', 'hello" x', "(a [b] {c})", "(((", ")))", "a 'b' \"c\"", "", "x", '"', '""', "(a", "a)", "<<a>>", "`x` `", "a b",
+            "f(x, g(y)) + [1, 2]", "it's", "中 (文) 字", "{\n a\n}", "((a)"]
+    PAIR = ['"', "'", "`", "(", ")", "[", "]", "{", "}", "<", ">", "b", "B", " ", "a", "\x1b", "中"]
+    OPS = [b"c", b"d", b"y", b"g~", b"gu", b"gU", b"v"]
+    out = []
+    for i in range(n):
+        c = {"id": "c01sur-%d" % i, "inputrc": "set editing-mode vi\n" + case_options(rng, i), "w": 80, "h": 24, "prompt": "> ", "setups": [], "sessions": [], "hangms": 10000}
+        for _ in range(25):
+            b = rng.choice(BUFS)
+            c["setups"].append(setup(b, rng.randint(0, len(b)), "vi-command"))
+            ks = []
+            for _ in range(rng.randint(1, 3)):
+                op = rng.choice(OPS)
+                x, y = rng.choice(PAIR).encode(), rng.choice(PAIR).encode()
+                r = rng.random()
+                if op == b"v":
+                    ks += [b"v", rng.choice([b"l", b"e", b"iw", b"$", b"h"]), b"S", x]
+                elif r < 0.45:
+                    ks += [op, b"s", x] + ([y] if op == b"c" else [])
+                else:
+                    ks += [op, rng.choice([b"i", b"a"]), x] + ([b"Z\x1b"] if op == b"c" else [])
+                if rng.random() < 0.3:
+                    ks.append(rng.choice([b"u", b".", b"p", b"\x1b"]))
+            c["sessions"].append([SETUP_KEY] + [keys(k) for k in ks])
+        out.append(c)
+    return out
 
 
 def api_cases(rng, n):
